@@ -28,29 +28,52 @@ func c05InExt(es extents, blk uint64) uint64 {
 	return n
 }
 
-// c05BitmapDelta compares the block bitmaps before/after with the extent list `es`:
-// returns (#bits that changed although not in es or did not change although in es,
-//
-//	#blocks of es that were not in state wantBefore before, #blocks in es).
-func c05BitmapDelta(g *c05Geo, before []byte, es extents, wantBefore uint64) (wrong, bad, total uint64) {
+// c05BitmapDelta compares the block bitmaps before/after with the extent list `es`.
+// windows = the bit ranges (per group) in which the operation may legitimately change bits; every
+// byte outside them must be unchanged and every extent must lie inside one window.
+// returns (#deviations, #blocks of es that were not in state wantBefore before, #blocks in es).
+func c05BitmapDelta(g *c05Geo, before []byte, es extents, wantBefore uint64, windows []c05Mark) (wrong, bad, total uint64) {
 	for i := 0; i < g.groups; i++ {
 		off := g.blockBitmapLoc(i) * g.bs
 		start := g.fdb + i*g.bpg
-		for k := 0; k < g.blocksInGroup(i); k++ {
-			was := uint64(before[off+k/8]>>uint(k%8)) & 1
-			now := uint64(g.img[off+k/8]>>uint(k%8)) & 1
-			in := c05InExt(es, uint64(start+k))
-			total += in
-			// a block of es flips, any other block keeps its state
-			wrong += vp.IteU64(in == 0, was^now, 0)
-			wrong += vp.IteU64(in == 1, 1^(was^now), 0)
-			wrong += vp.IteU64(in > 1, 1, 0)
-			bad += vp.IteU64(in >= 1, was^wantBefore, 0)
+		for k := 0; k < g.bs; k++ {
+			inWin := false
+			for _, w := range windows {
+				if w.group == i && k >= w.from/8 && k <= (w.to-1)/8 {
+					inWin = true
+				}
+			}
+			if !inWin {
+				wrong += vp.IteU64(before[off+k] == g.img[off+k], 0, 1)
+			}
 		}
-		// padding untouched
-		for k := g.blocksInGroup(i); k < g.bpg+8 && k < g.bs*8; k++ {
-			wrong += uint64(before[off+k/8]>>uint(k%8))&1 ^ uint64(g.img[off+k/8]>>uint(k%8))&1
+		for _, w := range windows {
+			if w.group != i {
+				continue
+			}
+			for k := w.from / 8 * 8; k < ((w.to-1)/8+1)*8; k++ {
+				was := uint64(before[off+k/8]>>uint(k%8)) & 1
+				now := uint64(g.img[off+k/8]>>uint(k%8)) & 1
+				in := c05InExt(es, uint64(start+k))
+				total += in
+				// a block of es flips, any other block keeps its state
+				wrong += vp.IteU64(in == 0, was^now, 0)
+				wrong += vp.IteU64(in == 1, 1^(was^now), 0)
+				wrong += vp.IteU64(in > 1, 1, 0)
+				bad += vp.IteU64(in >= 1, was^wantBefore, 0)
+			}
 		}
+	}
+	for i := range es {
+		lo := es[i].startingBlock
+		hi := lo + uint64(es[i].count)
+		var inside uint64
+		for _, w := range windows {
+			wlo := uint64(g.fdb + w.group*g.bpg + w.from)
+			whi := uint64(g.fdb + w.group*g.bpg + w.to)
+			inside += vp.IteU64(lo >= wlo, 1, 0) & vp.IteU64(hi <= whi, 1, 0)
+		}
+		wrong += vp.IteU64(inside >= 1, 0, 1)
 	}
 	return
 }
@@ -63,6 +86,7 @@ type c05AllocCase struct {
 	csum      bool
 	marks     []c05Mark
 	maxBlocks int
+	windows   []c05Mark // bit ranges the operation may touch
 }
 
 // c05Alloc: allocateExtents(size, nil) with symbolic size.
@@ -82,7 +106,7 @@ func c05Alloc(c c05AllocCase) {
 	c05CheckCounts(&g)
 	c05CheckBitmapCsums(&g, fx.seed)
 	if err != nil {
-		wrong, _, _ := c05BitmapDelta(&g, before, nil, 0)
+		wrong, _, _ := c05BitmapDelta(&g, before, nil, 0, nil)
 		vp.Assert(wrong == 0, "a refused allocation leaves the block bitmaps as they were")
 		vp.Assert(g.freeBlocksSB() == freeBefore, "a refused allocation leaves the free count as it was")
 		vp.Cover("allocation refused")
@@ -103,7 +127,7 @@ func c05Alloc(c c05AllocCase) {
 	}
 	vp.Assert(fileBlock == need, "the extents cover exactly ceil(size/blocksize) blocks")
 	vp.Assert(seqBad == 0, "extents are numbered consecutively, non-empty and inside the filesystem")
-	wrong, bad, total := c05BitmapDelta(&g, before, es, 0)
+	wrong, bad, total := c05BitmapDelta(&g, before, es, 0, c.windows)
 	vp.Assert(total == need, "every handed-out block is a block of some group, none twice")
 	vp.Assert(bad == 0, "every handed-out block was free before")
 	vp.Assert(wrong == 0, "the block bitmaps changed exactly at the handed-out blocks")
@@ -124,25 +148,28 @@ var c05Holes = []c05Mark{{0, 12, 20}, {0, 22, 30}, {0, 33, 40}, {0, 41, 256}}
 
 // fresh 1 KiB volume, 2 groups, flex_bg, metadata_csum
 func VP_C05_alloc_fresh_1k() {
-	c05Alloc(c05AllocCase{bs: 1024, bpg: 256, blocks: 513, ipg: 32, flex: 8, csum: true, maxBlocks: vp.Bound("allocblocks", 6, 12)})
+	c05Alloc(c05AllocCase{bs: 1024, bpg: 256, blocks: 512, ipg: 32, flex: 8, csum: true, maxBlocks: vp.Bound("allocblocks", 5, 12),
+		windows: []c05Mark{{0, 22, 40}}})
 }
 
 // fragmented single group: sizes up to 3 blocks fit a hole, 4..6 need several extents, 7 is refused
 func VP_C05_alloc_holes_1k() {
-	c05Alloc(c05AllocCase{bs: 1024, bpg: 256, blocks: 257, ipg: 32, flex: 0, csum: true, marks: c05Holes, maxBlocks: 7})
+	c05Alloc(c05AllocCase{bs: 1024, bpg: 256, blocks: 256, ipg: 32, flex: 0, csum: true, marks: c05Holes, maxBlocks: 7,
+		windows: []c05Mark{{0, 20, 41}}})
 }
 
 // fragmented first group + second group with one hole of 2: allocation spanning groups
 func VP_C05_alloc_holes_2groups() {
 	m := append([]c05Mark{}, c05Holes...)
 	m = append(m, c05Mark{1, 12, 100}, c05Mark{1, 102, 256})
-	c05Alloc(c05AllocCase{bs: 1024, bpg: 256, blocks: 513, ipg: 32, flex: 0, csum: false, marks: m, maxBlocks: 9})
+	c05Alloc(c05AllocCase{bs: 1024, bpg: 256, blocks: 512, ipg: 32, flex: 0, csum: false, marks: m, maxBlocks: 9,
+		windows: []c05Mark{{0, 20, 41}, {1, 100, 102}}})
 }
 
 // 2 KiB blocks (firstDataBlock = 0), three groups, flex_bg: group 2 starts with a data block
 func VP_C05_alloc_fresh_2k() {
 	c05Alloc(c05AllocCase{bs: 2048, bpg: 256, blocks: 768, ipg: 32, flex: 8, csum: false,
-		marks: []c05Mark{{0, 20, 256}, {1, 2, 256}}, maxBlocks: 5})
+		marks: []c05Mark{{0, 20, 256}, {1, 2, 256}}, maxBlocks: 5, windows: []c05Mark{{2, 0, 8}}})
 }
 
 // c05Dealloc: deallocateExtents of one extent [start, start+count) inside a range that is in use.
@@ -176,7 +203,7 @@ func c05Dealloc(c c05AllocCase, lo, hi uint64) {
 	if err != nil {
 		return
 	}
-	wrong, bad, total := c05BitmapDelta(&g, before, es, 1)
+	wrong, bad, total := c05BitmapDelta(&g, before, es, 1, c.windows)
 	vp.Assert(total == uint64(count), "all blocks of the extent belong to some group")
 	vp.Assert(bad == 0, "fixture: the blocks were in use")
 	vp.AssertUnless("KF-C05-4", kf, wrong == 0, "the block bitmaps changed exactly at the blocks given back")
@@ -199,14 +226,14 @@ func c05Dealloc(c c05AllocCase, lo, hi uint64) {
 
 // 1 KiB blocks, flex_bg, 3 groups: blocks 497..522 in use (bits 240..255 of group 1, bits 0..9 of group 2)
 func VP_C05_dealloc_1k() {
-	c05Dealloc(c05AllocCase{bs: 1024, bpg: 256, blocks: 769, ipg: 32, flex: 8, csum: true,
-		marks: []c05Mark{{1, 240, 256}, {2, 0, 10}}, maxBlocks: 6}, 497, 523)
+	c05Dealloc(c05AllocCase{bs: 1024, bpg: 256, blocks: 768, ipg: 32, flex: 8, csum: true,
+		marks: []c05Mark{{1, 240, 256}, {2, 0, 10}}, maxBlocks: 6, windows: []c05Mark{{1, 240, 256}, {2, 0, 10}}}, 497, 523)
 }
 
 // 2 KiB blocks, flex_bg, 3 groups: blocks 500..520 in use; block 512 is the first block of group 2
 func VP_C05_dealloc_2k_group_start() {
 	c05Dealloc(c05AllocCase{bs: 2048, bpg: 256, blocks: 768, ipg: 32, flex: 8, csum: false,
-		marks: []c05Mark{{1, 240, 256}, {2, 0, 10}}, maxBlocks: 5}, 500, 520)
+		marks: []c05Mark{{1, 240, 256}, {2, 0, 10}}, maxBlocks: 5, windows: []c05Mark{{1, 240, 256}, {2, 0, 10}}}, 500, 520)
 }
 
 // c05AllocInode: allocateInode(parent, 0) where the in-use state of inodes 11..32 of group 0 is arbitrary.
@@ -215,7 +242,7 @@ func c05AllocInode(groups int, fullSecond bool) {
 	if fullSecond {
 		im = append(im, c05Mark{1, 0, 32})
 	}
-	fx := c05NewFixture(1024, 256, uint64(groups*256+1), 32, 0, true, nil, im)
+	fx := c05NewFixture(1024, 256, uint64(groups*256), 32, 0, true, nil, im)
 	fs := fx.fs
 	// make bytes 1..3 of the first inode bitmap arbitrary and bring the counters in line (reference code)
 	d0 := &fs.groupDescriptors.descriptors[0]
@@ -304,7 +331,6 @@ func c05IndexInode(ipg uint32) {
 }
 func VP_C05_index_inode_32()   { c05IndexInode(32) }
 func VP_C05_index_inode_8192() { c05IndexInode(8192) }
-func VP_C05_index_inode_2040() { c05IndexInode(2040) }
 
 func c05IndexBlock(bpg uint32, fdb uint32) {
 	idx := vp.U32("idx")
@@ -356,11 +382,12 @@ func VP_C05_index_backup_groups() {
 	bpg := vp.U32("blocksPerGroup")
 	vp.Assume(bpg >= 256)
 	vp.Assume(bpg <= 65528)
-	vp.Assume(bc >= 1)
-	vp.Assume(bc <= 1<<40)
-	sb := &superblock{blockCount: bc, blocksPerGroup: bpg}
-	cnt := sb.blockGroupCount()
-	vp.Assert(cnt*uint64(bpg) >= bc, "blockGroupCount groups cover all blocks")
-	vp.Assert((cnt-1)*uint64(bpg) < bc, "blockGroupCount has no spare group")
+	for _, k := range []uint64{1, 2, 5, 100} {
+		// (k-1)*bpg < bc <= k*bpg  <=>  k groups
+		in := vp.IteU64(bc > (k-1)*uint64(bpg), 1, 0) & vp.IteU64(bc <= k*uint64(bpg), 1, 0)
+		sb := &superblock{blockCount: bc, blocksPerGroup: bpg}
+		cnt := sb.blockGroupCount()
+		vp.Assert(vp.IteU64(in == 1, cnt, k) == k, "blockGroupCount = ceil(blockCount/blocksPerGroup)")
+	}
 	vp.Cover("backup groups")
 }
